@@ -1,11 +1,14 @@
 package main
 
 import (
+	"bytes"
+	"context"
 	"encoding/hex"
 	"encoding/json"
 	"fmt"
 	"strings"
 
+	gp2p "github.com/leprosus/golang-p2p"
 	"github.com/my-cloud/ruthenium/validatornode/domain/ledger"
 )
 
@@ -80,6 +83,26 @@ func runWireSuite(seed uint64, n int, out *Out, stats *Stats) {
 		}
 		v.Log.Take()
 		blocks := v.AllBlocks()
+		// (0) an answer of the "blocks" handler stays what it was while later requests are answered
+		// (the p2p server writes the response after the handler has returned)
+		if len(blocks) >= 2 {
+			v.controllers()
+			r1, err1 := v.blkCtl.HandleBlocksRequest(context.TODO(), gp2p.Data{Bytes: []byte("0")})
+			if err1 == nil {
+				held := r1.GetBytes()
+				keep := append([]byte(nil), held...)
+				_, _ = v.blkCtl.HandleBlocksRequest(context.TODO(), gp2p.Data{Bytes: []byte(fmt.Sprint(len(blocks) - 1))})
+				_, _ = v.blkCtl.HandleFirstBlockTimestampRequest(context.TODO(), gp2p.Data{})
+				if !bytes.Equal(held, keep) {
+					out.Violation("C15", id, "answer-overwritten\tthe bytes answered to a blocks request changed while a later request was answered")
+				}
+				want := mustJSON(v.Chain.Blocks(0))
+				if !bytes.Equal(keep, want) {
+					out.Violation("C15", id, "answer-differs\tthe blocks handler does not answer the encoding of the served blocks")
+				}
+			}
+			stats.Count("served/two answers in flight")
+		}
 		// (a) served blocks: bytes and hashes
 		for k, b := range blocks {
 			bs := mustJSON(b)
